@@ -25,11 +25,51 @@ def correspond(ctx):
     ev = stats['solves']
     ev += opsolve_runs(ctx, cvxopt)
     ev += precision_runs(ctx, cvxopt)
+    ev += start_outside_cone_runs(ctx, cvxopt)
     ctx.cov.update({'evaluations': ev, 'distinct_nontrivial': judged,
                     'rule': 'planted cone LPs: 40% strict Farkas certificates (dual feasible), 40% strictly improving rays (primal feasible), 20% '
                             'solvable; presentations as in C01; every infeasibility status judged by pinfOk/dinfOk of the Lean checker; '
                             'op.solve status propagation on infeasible/unbounded LPs', 'statuses': stats, 'presentations': tags})
     ctx.samples += lines[:2]
+
+def start_outside_cone_runs(ctx, cvxopt):
+    """strictly feasible problems whose inequalities come in opposite pairs (G'e = 0) with a user start point outside the cone: z = -e
+    satisfies G'z + A'y = 0 and h'z + b'y < 0, i.e. it looks like a Farkas certificate except that it is not in the cone.  The documented answer
+    is ValueError; an infeasibility status on such a problem can carry no valid certificate."""
+    import random
+    from corr import problems as PR
+    from cvxopt import solvers, matrix
+    rng = random.Random(ctx.seed * 7001 + 2)
+    runs = 0; stat = {}
+    for it in range(16 if ctx.quick() else 300):
+        pr = PR.planted_twosided(rng); dims = pr.dims
+        c, G, h, A, b, P = PR.to_cvx(cvxopt, pr)
+        e = [1.0] * dims['l']
+        for m in dims['q']: e += [1.0] + [0.0] * (m - 1)
+        for k in dims['s']: e += [(1.0 if i == j else 0.0) for j in range(k) for i in range(k)]
+        t = rng.choice([1.0, 0.5, 3.0]); which = rng.choice(['z', 'z', 's'])
+        w = pr.wit
+        ps = {'x': matrix(w['x'], (pr.n, 1), 'd'), 's': matrix(w['s'] if which == 'z' else [-t * a for a in e], (pr.N, 1), 'd')}
+        ds = {'y': matrix(0.0, (0, 1)), 'z': matrix([-t * a for a in e] if which == 'z' else w['z'], (pr.N, 1), 'd')}
+        calls = [('conelp', lambda: solvers.conelp(c, G, h, dims, A, b, primalstart=ps, dualstart=ds, options={'show_progress': False}))]
+        if which == 'z': calls.append(('conelp dualstart only', lambda: solvers.conelp(c, G, h, dims, A, b, dualstart=ds, options={'show_progress': False})))
+        if not dims['q'] and not dims['s']: calls.append(('lp', lambda: solvers.lp(c, G, h, A, b, primalstart=ps, dualstart=ds, options={'show_progress': False})))
+        for tag, fn in calls:
+            runs += 1
+            try: r = certlib.quiet(fn)
+            except ValueError: stat['refused'] = stat.get('refused', 0) + 1; continue
+            except Exception as ex:
+                stat['exception'] = stat.get('exception', 0) + 1
+                if not isinstance(ex, (ArithmeticError, ZeroDivisionError, OverflowError)):
+                    ctx.violation('c02:start-point-exception:' + type(ex).__name__, '%s with a start point outside the cone raised %s: %s' % (tag, type(ex).__name__, ex), {'dims': dims, 'which': which})
+                continue
+            stat[r['status']] = stat.get(r['status'], 0) + 1
+            if r['status'] in ('primal infeasible', 'dual infeasible'):
+                ctx.violation('c02:infeasibility-status-on-feasible-problem:start-point', "%s returned %r for a strictly feasible and bounded problem when the %s start point was %s (outside the cone; "
+                              "for z = -e: G'z + A'y = 0 and h'z < 0, a certificate in everything but cone membership)" % (tag, r['status'], 'dual' if which == 'z' else 'primal', '-%g e' % t),
+                              {'dims': dims, 'c': pr.c, 'G': pr.G, 'h': pr.h, 'which': which, 'scale': t, 'presentation': tag})
+    ctx.cov['start_outside_cone_runs'] = dict(stat, runs=runs)
+    return runs
 
 def precision_runs(ctx, cvxopt):
     """strictly feasible planted cone LPs solved with tolerances near and below what double precision delivers (1e-11 .. 1e-13): the iteration
